@@ -54,6 +54,13 @@ func genC19(r *prng) *plan {
 	}
 	p.Cfg["size"] = int64(1500 + r.intn(30000))
 	p.Cfg["nkeys"] = int64(2 + r.intn(5))
+	// restart story (real <-> puppet, second sweep onwards): after the exchanges the peer restarts under the
+	// same key advertising another set; the node still holds the old record in its table when the peer's next
+	// requests arrive with the new one
+	if p.Cfg["mode"] == 0 && idx >= n1+n2 && r.chance(50) {
+		p.Cfg["restart"] = 1
+		p.Cfg["b2"] = int64([]int{0, 1, 2, 7}[r.intn(4)])
+	}
 	p.Ops = []opSpec{{K: "offer_in"}, {K: "find_in"}, {K: "offer_out"}, {K: "find_out"}}
 	// random order of the four exchanges
 	for i := len(p.Ops) - 1; i > 0; i-- {
@@ -359,8 +366,85 @@ func runC19(seed uint64) {
 			w.probe(fmt.Sprintf("find_out_v%d", ver))
 		}
 	}
+	if bi2 := int(p.cfg("b2")); p.cfg("restart") == 1 && bi <= 7 {
+		c19Restart(w, V, P, ncfg, vMine, ai, bi, bi2, keys, bigKey, bigVal)
+	}
 	w.res.Nontrivial = true
 	w.finish()
+}
+
+// c19Restart: the peer goes away and comes back under the same key and address advertising another version
+// set (a restart after an upgrade). Its record in the node's table is still the old one; the requests it now
+// sends carry the new one (handshake), and the node must settle on the version the two sets share now.
+func c19Restart(w *world, V *baseNode, P *puppet, ncfg nodeCfg, vMine []uint8, ai, bi, bi2 int, keys [][]byte, bigKey, bigVal []byte) {
+	ver2, ok2, _ := c19Expect(vMine, bi2)
+	if !ok2 || ver2 > 1 {
+		return
+	}
+	P.shutdown()
+	w.fault("peer_restart_new_versions")
+	w.runFor(200 * time.Millisecond)
+	ncfg.versions = c19Sets[bi2]
+	P2 := w.newPuppet(ncfg)
+	w.runFor(30 * time.Millisecond)
+	if P2.self().Seq() <= P.self().Seq() {
+		fatal2("c19 restart: the restarted peer's record is not newer")
+	}
+	w.op("peer restarts advertising %s (was %s): common version now %d", c19Name(bi2), c19Name(bi), ver2)
+	w.abstract("restart %d->%d", bi, bi2)
+	var resp []byte
+	okc, err := w.call("offer_in2", 10*time.Second, func() error {
+		var e error
+		resp, e = P2.talk(V.self(), portalwire.History, encOffer(keys))
+		return e
+	})
+	if !okc || err != nil {
+		w.violate("C19", "no-reply", "after the peer's restart its raw OFFER got no reply at all: %v", err)
+		return
+	}
+	a := decAccept(ver2, resp)
+	bodyLen, wantLen := len(resp)-7, len(keys)
+	if ver2 == 0 {
+		wantLen = len(keys)/8 + 1
+	}
+	if !a.ok || bodyLen != wantLen || len(a.codes) != len(keys) {
+		w.violate("C19", "accept-encoding", "V advertises %s, the peer restarted advertising %s (was %s): highest common version is now %d, but the ACCEPT for %d keys has a %d-byte verdict field (v%d needs %d)", c19Name(ai), c19Name(bi2), c19Name(bi), ver2, len(keys), bodyLen, ver2, wantLen)
+	} else {
+		w.probe(fmt.Sprintf("restart_offer_in_v%d", ver2))
+	}
+	okc, err = w.call("find_in2", 10*time.Second, func() error {
+		var e error
+		resp, e = P2.talk(V.self(), portalwire.History, encFindContent(bigKey))
+		return e
+	})
+	if !okc || err != nil {
+		w.violate("C19", "no-reply", "after the peer's restart its raw FINDCONTENT got no reply: %v", err)
+		return
+	}
+	rep := decContent(resp)
+	if rep.kind != "connid" {
+		w.violate("C19", "find-reply", "FINDCONTENT for a %d-byte item was not answered with a connection id (%s)", len(bigVal), rep.kind)
+		return
+	}
+	var data []byte
+	okc, err = w.call("find_in2_utp", 150*time.Second, func() error {
+		var e error
+		data, e = P2.fetchUtp(V.self(), rep.connID, 100*time.Second)
+		return e
+	})
+	if !okc || err != nil {
+		w.violate("C19", "transfer-failed", "V advertises %s, the peer restarted advertising %s (common version %d): the large FINDCONTENT transfer failed: %v", c19Name(ai), c19Name(bi2), ver2, err)
+		return
+	}
+	want := bigVal
+	if ver2 == 1 {
+		want = append(leb128(uint32(len(bigVal))), bigVal...)
+	}
+	if !bytes.Equal(data, want) {
+		w.violate("C19", "utp-framing", "V advertises %s, the peer restarted advertising %s (was %s): highest common version is now %d, but the stream (%d bytes) is not the v%d framing of the %d-byte item", c19Name(ai), c19Name(bi2), c19Name(bi), ver2, len(data), ver2, len(bigVal))
+	} else {
+		w.probe(fmt.Sprintf("restart_find_in_v%d", ver2))
+	}
 }
 
 func c19RealReal(w *world, p *plan, V *baseNode, vp *proto, ai, bi int, bigKey, bigVal []byte, keys, items [][]byte) {
